@@ -16,6 +16,8 @@ import time
 VERIF = os.path.dirname(os.path.dirname(os.path.abspath(__file__)))
 REPO = os.environ.get("EINX_REPO", "/repo")
 SPEC = os.path.join(VERIF, "spec")
+# mutation runs (tools/mut_matrix.py) redirect evidence and replay files so that they never overwrite the evidence of /repo
+OUTDIR = os.environ.get("VERIF_OUT", VERIF)
 PY = "/venv/bin/python"
 TLA_JAR = "/opt/veriftools/tla/tla2tools.jar"
 NCPU = os.cpu_count() or 4
@@ -286,7 +288,7 @@ class Report:
         self.tlc_runs = []
         self.rule = ""
         self.exhaustive = None
-        shutil.rmtree(os.path.join(VERIF, "replays", prop), ignore_errors=True)
+        shutil.rmtree(os.path.join(OUTDIR, "replays", prop), ignore_errors=True)
         self.known = [k for k in load_known() if k.get("property") == prop and k.get("status") == "known"]
 
     # -- TLC bookkeeping
@@ -321,7 +323,7 @@ class Report:
 
     def finish(self):
         wall = time.time() - self.t0
-        rdir = os.path.join(VERIF, "replays", self.prop)
+        rdir = os.path.join(OUTDIR, "replays", self.prop)
         lines = []
         for kid, ent in sorted(self.known_hits.items()):
             k = ent["finding"]
@@ -368,8 +370,8 @@ class Report:
         cov.update(self.extra)
         ev = {"property_id": self.prop, "tier": self.tier, "seed": seed(), "level": self.level, "coverage": cov,
               "assumptions": self.assumptions, "wall_s": round(wall, 2), "violations": len(self.violations)}
-        os.makedirs(os.path.join(VERIF, "evidence"), exist_ok=True)
-        with open(os.path.join(VERIF, "evidence", self.prop + ".json"), "w") as f:
+        os.makedirs(os.path.join(OUTDIR, "evidence"), exist_ok=True)
+        with open(os.path.join(OUTDIR, "evidence", self.prop + ".json"), "w") as f:
             json.dump(ev, f, indent=1, default=str)
         for l in lines:
             print(l)
